@@ -67,3 +67,51 @@ def hooks(sites):
     if sites is CMM_SITES:
         return SiteSpecHooks(BRANCH_SITES, inner=inner)
     return inner
+
+
+def replay(ob):
+    """Native replay of refuted krondot / calculate_many_marginals obligations: a chain model a-b, b-c, c-d with random potentials and
+    total 50; every pairwise bulk answer and a Kronecker-product query with random matrices are compared with the explicit joint."""
+    if not any(k in ob.name for k in ('krondot', 'calculate_many_marginals')):
+        return None
+    import itertools
+    import numpy as np
+    from .. import env
+    env.ensure_repo_importable()
+    from mbi import Domain, Factor, GraphicalModel, CliqueVector
+    rng = np.random.RandomState(5)
+    attrs, shape = ['a', 'b', 'c', 'd'], [2, 3, 2, 3]
+    dom = Domain(attrs, shape)
+    cliques = [('a', 'b'), ('b', 'c'), ('c', 'd')]
+    total = 50.0
+    model = GraphicalModel(dom, cliques, total=total)
+    model.potentials = CliqueVector({cl: Factor(dom.project(cl), rng.randn(*dom.project(cl).shape)) for cl in model.cliques})
+    joint = np.zeros(shape)
+    for cl in model.cliques:
+        f = model.potentials[cl]
+        idx = [attrs.index(x) for x in f.domain.attrs]
+        joint = joint + f.values.reshape([shape[i] if i in idx else 1 for i in range(4)]) if list(f.domain.attrs) == [attrs[i] for i in sorted(idx)] else \
+            joint + np.moveaxis(f.values, range(len(idx)), np.argsort(np.argsort(idx))).reshape([shape[i] if i in idx else 1 for i in range(4)])
+    joint = np.exp(joint - joint.max())
+    joint = joint * total / joint.sum()
+    bad = []
+    try:
+        if 'krondot' in ob.name:
+            mats = [rng.randn(2, n) for n in shape]
+            got = np.asarray(model.krondot(mats), dtype=float)
+            want = np.einsum('abcd,ia,jb,kc,ld->ijkl', joint, *mats)
+            if got.shape != want.shape or not np.allclose(got, want, rtol=1e-8, atol=1e-8):
+                bad.append('krondot')
+        else:
+            projs = [tuple(p) for p in itertools.permutations(attrs, 2)]
+            ans = model.calculate_many_marginals(projs)
+            for p in projs:
+                i, j = attrs.index(p[0]), attrs.index(p[1])
+                want = joint.sum(axis=tuple(k for k in range(4) if k not in (i, j)))
+                want = want if i < j else want.T
+                got = np.asarray(ans[p].datavector(flatten=False), dtype=float) if p in ans else None
+                if got is None or got.shape != want.shape or not np.allclose(got, want, rtol=1e-8, atol=1e-8):
+                    bad.append('bulk answer %r' % (p,))
+    except Exception as e:
+        return dict(reproduced=True, inputs=dict(model='chain a-b, b-c, c-d; shape 2,3,2,3; potentials RandomState(5).randn; total 50'), raised='%s: %s' % (type(e).__name__, e))
+    return dict(reproduced=bool(bad), inputs=dict(model='chain a-b, b-c, c-d; shape 2,3,2,3; potentials RandomState(5).randn; total 50'), wrong=bad[:6])
